@@ -47,7 +47,7 @@ BIG = [(B53 + 1, 9), (B53, 1), (B53 + 1, 5), (B53, 5), (B53 + 3, 10),
 
 # priorities beyond the named constants MIN_PRIORITY..MAX_PRIORITY (any int is
 # accepted): ties must still go to the higher priority
-WIDE = [(0, 11), (1, 12), (0, 12), (1, 0), (1, -1), (2, 100), (0, -5), (2, 11),
+WIDE = [(0, 11), (1, 3), (0, False), (1, 0), (1, -1), (1, 12), (0, 2), (2, 11),
         (1, 11), (0, 0)]
 
 
@@ -102,6 +102,7 @@ def make_pool(kind, K, order, rot):
         if kind == "subclasses":
             cls = (SimEvent, SubEvent, SubSubEvent)[i % 3]
         evs[i] = cls(tv, tgt, "h", p)
+        evs[i]._verif_prio = p
         evs[i]._verif_rank = rank
         rank += 1
     return evs
@@ -112,7 +113,9 @@ def ref_key(e):
     # (Python compares int/float exactly; Durations compare on SI values);
     # third key = creation order recorded by make_pool (the property says
     # "earlier creation"; that ids follow creation order is checked apart)
-    return (e.time, -e.priority, getattr(e, "_verif_rank", e.id))
+    # (the priority the event was given, not the one it reports)
+    return (e.time, -int(getattr(e, "_verif_prio", e.priority)),
+            getattr(e, "_verif_rank", e.id))
 
 
 # ---------------------------------------------------------------- ops
